@@ -574,17 +574,27 @@ fn sub_decode(tier: Tier) -> Sub {
     let thorough = tier == Tier::Thorough;
     let len = forms.len() as u64 * cfgs.len() as u64;
     let bound = format!(
-        "{} forms (DWARF 2-5 + GNU addr_index/str_index/ref_alt/strp_alt) x {} attribute names (every name of DWARF 5 table 7.5 + GNU split-DWARF names + {} names without class information) x boundary payloads per encoding (integers 0,1,0x7f,0x80,0xff,max/2,max/2+1,max,byte pattern; 1..10-byte and over-long LEB128; blocks of 0,1,127,128,255,256,16384{} bytes; strings of 0,1,5,200 bytes; implicit constants min,-1,0,1,127,128,max) x version {{2,3,4,5}} x format x address size {{1,2,4,8}} x byte order (64 encodings): full product; every attribute followed by a sentinel attribute",
+        "{} forms (DWARF 2-5 + GNU addr_index/str_index/ref_alt/strp_alt) x {} attribute names (every name of DWARF 5 table 7.5 + GNU split-DWARF names + {} names without class information) x boundary payloads per encoding (integers 0,1,0x7f,0x80,0xff,max/2,max/2+1,max,byte pattern; 1..10-byte and over-long LEB128; blocks of 0,1,127,128,255,256,16384{} bytes; strings of 0,1,5,200 bytes; implicit constants min,-1,0,1,127,128,max) x version {{2,3,4,5}} x format x address size {{1,2,4,8}} x byte order (64 encodings): full product{}; every attribute followed by a sentinel attribute",
         forms.len(),
         names.len(),
         EXTRA_NAMES.len(),
-        if thorough { ",65535" } else { "" }
+        if thorough { ",65535" } else { "" },
+        if thorough { "" } else { " (quick tier: every second payload of each list, first and last always)" }
     );
     Sub::new("decode-form-x-name-x-payload-x-encoding", len, &bound, move |ctx, i| {
         let mut mx = Mix(i);
         let cfg = *mx.pick(&cfgs);
         let (form, fname, fk) = *mx.pick(&forms);
-        let ps = payloads(fk, cfg, thorough);
+        let mut ps = payloads(fk, cfg, thorough);
+        if !thorough {
+            // quick tier: every second boundary payload (always the first and the last)
+            let n = ps.len();
+            let mut k = 0;
+            ps.retain(|_| {
+                k += 1;
+                (k - 1) % 2 == 0 || k == n
+            });
+        }
         let mut dies = vec![];
         for &name in &names {
             for p in &ps {
